@@ -108,7 +108,7 @@ class C07(Check):
         s_idgen = st.one_of(s_idgen, s_idgen, st.builds(lambda a: {'kind': 'sequential', 'start': a, 'step': 1}, st.sampled_from([1, 0])))
         return st.builds(
             lambda c, d, s, g, n1, n2, plan, beh, seed, split: {'client': c, 'dispatcher': d, 'strict': s, 'id_gen': g, 'notation': n1, 'other': n2,
-                                                                  'plan': plan, 'behaviours': beh, 'seed': seed, 'split': split},
+                                                                  'plan': plan, 'behaviours': beh, 'seed': seed, 'split': split, 'batch_strict': seed % 3 != 0},
             st.sampled_from(['sync', 'async']), st.sampled_from(['sync', 'async']), st.sampled_from([True, True, False]), s_idgen,
             st.sampled_from(SINGLE_NOTATIONS + BATCH_NOTATIONS + BATCH_NOTATIONS), st.sampled_from(SINGLE_NOTATIONS + BATCH_NOTATIONS),
             st.lists(step(), min_size=1, max_size=4), stdreg.behaviours(True), st.integers(0, 1000), st.integers(1, 3),
@@ -123,6 +123,7 @@ class C07(Check):
             {**base, 'client': 'async', 'dispatcher': 'async', 'notation': 'batch-call', 'other': 'batch-add', 'plan': [n('noargs', []), n('noargs', [])]},
             {**base, 'notation': 'batch-getitem', 'other': 'batch-proxy', 'plan': [c('echo', [1, 2]), c('noargs', []), c('ret', [None])]},
             {**base, 'notation': 'proxy', 'other': 'send', 'plan': [c('rpc_err2', []), c('nope', [])]},
+            {**base, 'notation': 'batch-send', 'other': 'batch-add', 'batch_strict': False, 'plan': [c('echo', [1]), c('ret', []), n('noargs', [])]},
             # one batch object sent while it holds notifications only, then grown by calls and sent again (and the other way round)
             {**base, 'notation': 'batch-reuse', 'other': 'batch-add', 'split': 1, 'plan': [n('echo', [1]), c('echo', [2]), c('ret', [])]},
             {**base, 'strict': False, 'client': 'async', 'dispatcher': 'async', 'notation': 'batch-reuse', 'other': 'batch-send', 'split': 2,
@@ -133,6 +134,10 @@ class C07(Check):
             {**base, 'notation': 'call', 'other': 'batch-add', 'plan': [c('boom', []), c('boom2', [])],
              'behaviours': {'boom': {'kind': 'raise_exc', 'exc': 'ValidationError', 'marker': 'MARKER-v7-zq'},
                             'boom2': {'kind': 'raise_exc', 'exc': 'DeserializationError', 'marker': 'MARKER-d7-zq'}}},
+            {**base, 'notation': 'call', 'other': 'batch-add', 'plan': [c('boom', []), c('echo', [1])],
+             'behaviours': {'boom': {'kind': 'raise_exc', 'exc': 'ZzUnprintable', 'marker': 'MARKER-u7-zq'}}},
+            {**base, 'client': 'async', 'dispatcher': 'async', 'notation': 'batch-call', 'other': 'proxy', 'plan': [c('boom', []), c('echo', [1])],
+             'behaviours': {'boom': {'kind': 'raise_exc', 'exc': 'ZzUnprintable', 'marker': 'MARKER-u7-zq'}}},
             {**base, 'client': 'async', 'dispatcher': 'async', 'notation': 'proxy', 'other': 'batch-send', 'plan': [c('boom', []), n('boom2', [])],
              'behaviours': {'boom': {'kind': 'raise_exc', 'exc': 'ValidationError', 'marker': 'MARKER-v7-zq'},
                             'boom2': {'kind': 'raise_exc', 'exc': 'TimeoutError', 'marker': 'MARKER-t7-zq'}}},
@@ -224,7 +229,8 @@ class C07(Check):
                 gen = client.id_gen_impl()
                 try:
                     breq = pjrpc.BatchRequest(*[
-                        pjrpc.Request(p['method'], p['args'] or p['kwargs'], id=next(gen) if p['kind'] == 'call' else None) for p in plan])
+                        pjrpc.Request(p['method'], p['args'] or p['kwargs'], id=next(gen) if p['kind'] == 'call' else None) for p in plan],
+                        strict=spec.get('batch_strict', True))      # a hand-built batch that does not police duplicate ids (there are none)
                 except Exception as e:
                     outcomes.append(('exc', e))
                     breq = None
